@@ -158,11 +158,62 @@ func checkC17(c *Check) {
 		var body ssa.Instruction
 		okBody := false
 		var encV ssa.Value
+		var encCall ssa.Instruction // the Encode call (the body itself, or what fills the buffer that is written)
+		encFailed := EdgeSet{}
 		if sp.enc != "" {
 			for _, ci := range callsNamed(m, "(*"+sp.enc+".Encoder).Encode") {
 				a := ci.Common().Args
 				if vCall(sp.enc+".NewEncoder", w)(a[0]) && vParam(m, 2)(a[1]) {
 					body, okBody, encV = ci, true, a[0]
+					encCall = ci
+					continue
+				}
+				// encoded into a local buffer first, the buffer's bytes written to the render's writer afterwards
+				// (nothing is sent for a value that cannot be encoded)
+				ne := asCall(a[0])
+				if ne == nil || callName(&ne.Call) != sp.enc+".NewEncoder" || !vParam(m, 2)(a[1]) {
+					continue
+				}
+				var buf *ssa.Alloc
+				if mi, isMI := ne.Call.Args[0].(*ssa.MakeInterface); isMI {
+					buf, _ = mi.X.(*ssa.Alloc)
+				}
+				if buf == nil || derefT(buf.Type()).String() != "bytes.Buffer" {
+					continue
+				}
+				var bytesCalls []*ssa.Call
+				clean := true
+				for _, r := range referrers(buf) {
+					switch x := r.(type) {
+					case *ssa.MakeInterface:
+						if x != ne.Call.Args[0] {
+							clean = false
+						}
+					case *ssa.Call:
+						switch callName(&x.Call) {
+						case "(*bytes.Buffer).Bytes":
+							bytesCalls = append(bytesCalls, x)
+						case "(*bytes.Buffer).Len", "(*bytes.Buffer).Grow":
+						default:
+							clean = false
+						}
+					case *ssa.DebugRef:
+					default:
+						clean = false
+					}
+				}
+				if !clean || len(bytesCalls) != 1 {
+					continue
+				}
+				for _, wc := range callsIn(m, func(n string, cm *ssa.CallCommon) bool { return cm.IsInvoke() && cm.Method.Name() == "Write" }) {
+					if !w(wc.Common().Value) || strip(wc.Common().Args[0]) != ssa.Value(bytesCalls[0]) {
+						continue
+					}
+					if ok, _ := mustPrecede(m, isInstr(ci), bytesCalls[0]); !ok {
+						continue
+					}
+					body, okBody, encV, encCall = wc, true, a[0], ci
+					encFailed = edgesWhere(m, cCmp(token.NEQ, vIs(ci.(*ssa.Call)), vNil), true)
 				}
 			}
 		} else {
@@ -183,7 +234,7 @@ func checkC17(c *Check) {
 		if setCT != nil && wh != nil && body != nil {
 			ok1, _ := mustPrecede(m, isInstr(setCT), wh)
 			ok2, _ := mustPrecede(m, isInstr(wh), body)
-			ok3, _ := Query{Fn: m, Avoid: isInstr(body)}.FromEntry(isReturn)
+			ok3, _ := Query{Fn: m, Cut: encFailed, Avoid: isInstr(body)}.FromEntry(isReturn)
 			c.Cond(ok1 && ok2 && ok3 == nil, key+":order", p.Pos(wh.Pos()), "Content-Type → WriteHeader → body on every path", "headers must be set before WriteHeader and WriteHeader before the body on every path (a header set after the status line is lost; a body before it implies 200)")
 		}
 		// ---- R2 indentation
@@ -200,10 +251,20 @@ func checkC17(c *Check) {
 				return strip(a[0]) == strip(encV) && vConstStr("")(a[1]) && field(a[2])
 			}
 			bad := len(nonEmpty) == 0
+			target := body
+			if encCall != nil {
+				target = encCall
+			}
 			for e := range nonEmpty {
-				if in, _ := (Query{Fn: m, Avoid: isIndent}).Reach(e.B.Succs[e.S], 0, isInstr(body)); in != nil {
+				if in, _ := (Query{Fn: m, Avoid: isIndent}).Reach(e.B.Succs[e.S], 0, isInstr(target)); in != nil {
 					bad = true
 				}
+			}
+			// … and the decision is taken before the value is encoded: every path to Encode passed the
+			// "indent is empty" edge or the indent call
+			isEmpty := edgesWhere(m, cEmptyStr(field), true)
+			if in, _ := (Query{Fn: m, Cut: isEmpty, Avoid: isIndent}).FromEntry(isInstr(target)); in != nil {
+				bad = true
 			}
 			c.Cond(!bad, key+":indent", p.Pos(body.Pos()), "non-empty "+sp.indentField+" ⇒ "+sp.indentCall+"(enc, \"\", "+sp.indentField+") before Encode", "the configured indentation does not reach the encoder")
 		}
@@ -432,8 +493,41 @@ func ctorFieldExpr(p *Prog, rnFn *ssa.Function, recv VM, v ssa.Value) (ssa.Value
 			}
 			cell = freeVarBinding(fv)
 		}
-		if optsCell == nil || cell != ssa.Value(optsCell) {
+		if optsCell == nil {
 			return false
+		}
+		if cell != ssa.Value(optsCell) {
+			// the render's options are a plain copy (one store, of a load) of the variable that is read here:
+			// the same value as long as that variable is not written after the copy was taken (nor after this read,
+			// checked below)
+			src := copiedFrom(optsCell)
+			if src == nil || cell != ssa.Value(src.X) {
+				return false
+			}
+			al, isAl := src.X.(*ssa.Alloc)
+			if !isAl {
+				return false
+			}
+			writesSrc := func(in ssa.Instruction) bool {
+				st, isSt := in.(*ssa.Store)
+				if !isSt {
+					return false
+				}
+				r, _ := addrRoot(st.Addr)
+				return r == ssa.Value(al)
+			}
+			if src.Parent() == nil {
+				return false
+			}
+			if x, _ := (Query{Fn: src.Parent()}).After(src, writesSrc); x != nil {
+				return false
+			}
+			if fn := u.Parent(); fn == nil || fn != src.Parent() {
+				return false
+			} else if x, _ := (Query{Fn: fn}).After(u, writesSrc); x != nil {
+				return false
+			}
+			return true
 		}
 		// … read when the options are final: no store into the options variable (the defaulting step
 		// `opt = parseRenderOptions(opt)`, a field assignment) can still follow the read
@@ -455,4 +549,20 @@ func ctorFieldExpr(p *Prog, rnFn *ssa.Function, recv VM, v ssa.Value) (ssa.Value
 		return true
 	}
 	return found[0], cs
+}
+
+// copiedFrom: the cell has exactly one store and its value is a load of another variable; that load.
+func copiedFrom(cell *ssa.Alloc) *ssa.UnOp {
+	sts := cellStores(cell, 0)
+	if len(sts) != 1 {
+		return nil
+	}
+	u, ok := sts[0].Val.(*ssa.UnOp)
+	if !ok || u.Op != token.MUL {
+		return nil
+	}
+	if _, isAl := u.X.(*ssa.Alloc); !isAl {
+		return nil
+	}
+	return u
 }
